@@ -1077,6 +1077,7 @@ type op =
 | OInvalidate of n
 | OClear
 | OMultiGet of n list
+| OMultiGetAsync of n list
 | OMultiInsert of ((n * n) * n) list
 | OMultiRemove of n list
 | OMultiInvalidate of n list
@@ -1609,19 +1610,46 @@ let do_read p c hit s k =
     else ((if hit then on_hit p c s k e else s), (Some e.e_val))
   | None -> (s, None)
 
-(** val do_multiget :
-    policy -> cfg -> state -> n list -> (n * n) list -> state * (n * n) list **)
+(** val on_hit_direct : policy -> cfg -> state -> n -> entry -> state **)
 
-let rec do_multiget p c s ks acc =
+let on_hit_direct p c s k e =
+  let i = shard_of c k in
+  let sh = s.st_sh i in
+  let m =
+    match c.c_tti with
+    | Some _ ->
+      aset k { e_val = e.e_val; e_cost = e.e_cost; e_exp = e.e_exp; e_la =
+        s.st_now; e_timer = e.e_timer; e_id = e.e_id } sh.s_map
+    | None -> sh.s_map
+  in
+  set_sh p s i { s_map = m; s_pol =
+    (pcall p sh.s_pol (Access (k, e.e_cost))); s_evq = sh.s_evq; s_batch =
+    sh.s_batch; s_tick = sh.s_tick; s_timers = sh.s_timers }
+
+(** val do_read_direct : policy -> cfg -> state -> n -> state * n option **)
+
+let do_read_direct p c s k =
+  match find p c s k with
+  | Some e ->
+    if expired c s.st_now e
+    then (s, None)
+    else ((on_hit_direct p c s k e), (Some e.e_val))
+  | None -> (s, None)
+
+(** val do_multiget_gen :
+    policy -> (state -> n -> state * n option) -> state -> n list -> (n * n)
+    list -> state * (n * n) list **)
+
+let rec do_multiget_gen p rd s ks acc =
   match ks with
   | [] -> (s, (rev acc))
   | k :: r ->
-    let (s1, o) = do_read p c true s k in
+    let (s1, o) = rd s k in
     (match o with
      | Some v ->
-       do_multiget p c s1 r
+       do_multiget_gen p rd s1 r
          (if mem k (map fst acc) then acc else (k, v) :: acc)
-     | None -> do_multiget p c s1 r acc)
+     | None -> do_multiget_gen p rd s1 r acc)
 
 (** val computable : policy -> cfg -> state -> n -> entry option **)
 
@@ -1740,7 +1768,12 @@ let step p c s = function
                | Some _ -> true
                | None -> false)))
 | OClear -> ((do_clear p c s), RUnit)
-| OMultiGet ks -> let (s', l) = do_multiget p c s ks [] in (s', (RPairs l))
+| OMultiGet ks ->
+  let (s', l) = do_multiget_gen p (do_read p c true) s ks [] in
+  (s', (RPairs l))
+| OMultiGetAsync ks ->
+  let (s', l) = do_multiget_gen p (do_read_direct p c) s ks [] in
+  (s', (RPairs l))
 | OMultiInsert items -> ((do_multi_insert p c s items), RUnit)
 | OMultiRemove ks ->
   let (s', l) = do_multi_remove p c s ks [] in (s', (RPairs l))
